@@ -6,6 +6,6 @@ import SV.Generated.Facts
 namespace SV.Facts
 
 theorem unit_operations_are_single_sections :
-    (unitGetSingleSection && unitPutSingleSection && unitRemoveSingleSection) = true := by decide
+    (unitGetSingleSection && unitPutSingleSection && unitRemoveSingleSection && unitHasSingleSection) = true := by decide
 
 end SV.Facts
